@@ -57,6 +57,7 @@ class Monitor(object):
         self.outside_scope = []     # records set aside: C02 is stated for schedules without restarts
         self.voters = set(static_voters or [])
         self.trigger = {}           # finding triggers seen: name -> first step
+        self.cfg_after = {}
         self.stats = {'applies': 0, 'commits': 0, 'elections': 0, 'callbacks': 0, 'snap_installs': 0}
 
     def rec_c02(self, cb, msg):
@@ -490,6 +491,22 @@ class Monitor(object):
                 self.rec('C09', 'node %d has applied the log up to position %d, where the enabled code version is %d, but reports version %d'
                          % (nid, applied, want, have))
 
+    def note_configurations(self, rec, sim, log):
+        """cfg_after[(index, term)] = the configuration defined by the membership commands up to that entry: the fold
+        over the (by log matching unique) prefix, starting from the initial voters at entry (1, 0)"""
+        if not self.cfg_after:
+            self.cfg_after = {(1, 0): frozenset(rec.cfg['voters'])}
+        prev = None
+        for e in log:
+            key = (e[1], e[2])
+            if key not in self.cfg_after and prev is not None and prev in self.cfg_after:
+                c = self.cfg_after[prev]
+                kind, a, b = sim.cid_of_command(e[0])
+                if kind == 2:
+                    c = (c | {b}) if a == 1 else (c - {b})
+                self.cfg_after[key] = c
+            prev = key
+
     def check_c10(self, rec, sim, nid, o):
         if not rec.cfg.get('dyn') or nid >= RO_BASE:
             return
@@ -535,6 +552,8 @@ class Monitor(object):
                              % (nid, applied, sorted(actual), sorted(exp)))
             else:
                 sh = self.shadow.get(nid, set(actual))
+                self.note_configurations(rec, sim, old)
+                self.note_configurations(rec, sim, log)
                 gone = [e for e in old if e[1] not in new_by_idx or new_by_idx[e[1]][2] != e[2]]
                 came = [e for e in log if e[1] not in old_by_idx or old_by_idx[e[1]][2] != e[2]]
                 first_new = log[0][1]
@@ -543,6 +562,13 @@ class Monitor(object):
                         continue            # compacted away, not truncated
                     kind, a, b = sim.cid_of_command(e[0])
                     if kind == 2:
+                        # a truncated membership entry is undone only if it had changed the configuration: whether it
+                        # had is decided from the fold of the commands before it (independent of the implementation's
+                        # own rollback rule, which undoes every logged entry)
+                        pred = old_by_idx.get(e[1] - 1)
+                        before = self.cfg_after.get((pred[1], pred[2])) if pred is not None else None
+                        if before is not None and ((a == 1) == (b in before)):
+                            continue
                         if a == 1:
                             sh.discard(b)
                         elif b != nid:
